@@ -167,6 +167,7 @@ fixed("FX-C12-01", "C12", "a43e565", "Unmarshal into struct{ A string; IT encodi
 fixed("FX-C12-02", "C12", "2d620d1", "Unmarshal into struct{ T textUnmarshaler; ...64 or more bytes of further members } whose UnmarshalText appends to its argument failed with 'expected comma after object element': the argument was a window into the buffer still being decoded with the rest of the document as spare capacity (concrete member types; the check had such a member all along, but fewer than 64 bytes of document behind it, so the scribbler's append reallocated)")
 fixed("FX-C20-03", "C20", "df6e84d", "CreatePath(`$.x\"a\".\"b\"`) succeeded and compiled to $.a.b: characters between the dot and a double-quoted name were dropped (found while building the path-text mutation monitor for seeded change C20j: one character put in front of a quoted name of a grammar path must not leave the compiled node chain unchanged)")
 fixed("FX-C01-03", "C01", "1493752", "struct{ V T `json:\"v,omitempty\"` } with T a map type / zero-length array type / float type that has a value-receiver MarshalJSON: an empty non-nil map, [0]int{} and -0.0 were written ({\"v\":\"#0\"}) where encoding/json omits the member (found by the per-kind omitempty-marshaler family built for seeded change C01k; the known class KF-C01-OMITM was narrowed to the value-receiver TextMarshaler kinds it describes)")
+fixed("FX-C19-01", "C19", "8147abb", "json.BuildFieldQuery() without any field panicked (index out of range); it now returns an empty query")
 fixed("FX-C08-04", "C08", "1b3c852", "an acyclic chain deeper than 1000 levels that reaches one finished node twice (shared, not cyclic), where that node holds a nil pointer in an interface member: Marshal reported 'encountered a cycle via T' - OpInterface pushed the interface's address before the nil check and nothing popped it, so later pops removed the wrong entries (found while checking a remark of the wave-8 seeded-change agent for C08)")
 fixed("FX-C08-05", "C08", "d8997e6", "Marshal of an acyclic list of 1002 or more struct{ V interface{}; Next *T } nodes failed with 'encountered a cycle via interface {}': the interface is the first member, so its address equals the struct address recorded by OpRecursive on the same list (reported by the wave-8 seeded-change agent for C08; C08 compared the verdict with encoding/json only up to depth 200 for this type)")
 fixed("FX-C18-04", "C18", "3c2a02f", "Indent(dst, \"[1]   \", \"\", \" \") dropped the trailing blanks that encoding/json.Indent (and the function's own doc comment) keep (was KF-C18-06)")
